@@ -3076,6 +3076,8 @@ func (g *Generator) getTType(t *parser.Type) string {
 	switch underlyingType.Name {
 	case "bool", "byte", "double", "i16", "i32", "i64", "list", "set", "map", "string":
 		ttype = strings.ToUpper(underlyingType.Name)
+	case "i8":
+		ttype = "BYTE"
 	case "binary":
 		ttype = "STRING"
 	default:
